@@ -3,6 +3,9 @@ package main
 import "time"
 
 var configs = map[string]checkCfg{
+	"C12": {QuickBudget: 150 * time.Second, ThoroughBudge: 20 * time.Minute,
+		Rule: "states = distinct documents (label x prologue x declaration form x name spelling x epilogue for HTML; label x leading whitespace x quote x standalone x version quote x root for XML); transitions = (document, limit) executions (0, 3072, end of the declaring tag, len; every cut from the end of the declaring tag to len+1 for the real labels); every document carries a declaration, so non-trivial = documents",
+		Assumptions: []string{"not demanded: whitespace inside the quotes of a label, unquoted value glued to />, labels merely starting with utf-16, XML preceded by a BOM, XML with spaces around =, two declarations, & in labels, upper-case <?XML"}},
 	"C11": {QuickBudget: 150 * time.Second, ThoroughBudge: 20 * time.Minute,
 		Rule: "states = distinct byte strings (every string over the 19-symbol byte-class alphabet up to the length bound, shorter ones behind each of the 5 BOMs, 14 real sentences and their Latin-1/cp1252 re-encodings at every cut); transitions = Detect executions; non-trivial = headers containing at least one byte >= 0x80 (distinct strings by construction)",
 		Assumptions: []string{"empty input is not required to carry a charset", "no charset is demanded for ASCII containing ESC/DEL/BEL, nor for invalid UTF-8 that is not Latin-classed"}},
